@@ -296,7 +296,8 @@ def long_cases(ctx, exe, S):
        blob-page sizes 1023..1025 with a sparse structured offset set (+-1, +-15, +-16, +-17, +-4095, +-4096, +-4097, +-(len-1), apart)
        and every auxiliary buffer at the start / across and at a 4096 boundary / at the end of the region it can hurt.
        Quick: the cheap functions with {4097, 8193} (full offset set) and {1023, 1024, 1025, 4095, 4096} (+-1); thorough: all.
-       65537-octet cases are compared on the implementation only (`c_only`)."""
+       Cases longer than 1100 octets are compared on the implementation only (`c_only`: overlapped call vs disjoint call);
+       the correspondence with the model runs on the 1023..1025 cases."""
     rng, tier = ctx.rng, ctx.tier
     cases = []
     for fn, spec in S.SPEC.items():
@@ -376,7 +377,7 @@ def long_cases(ctx, exe, S):
                         continue          # the rotation by count2 single steps is quadratic in the model: kept short
                     if (fn in ("memXor", "memXor2") and ln > 4097):
                         continue
-                    c.c_only = ln > 8193
+                    c.c_only = ln > 1100          # the list-based model is quadratic in the buffer length: longer cases are oracle-only
                     cases.append(c)
     return cases
 
